@@ -137,6 +137,9 @@ def run(chk, tier):
         c02.check_config(chk, prog, cfg)
         cr.check_register_type(chk, prog, cfg, rule="R1.2")
         cr.check_from_registry(chk, prog, cfg, rule="R1.4")
+        # tuples (and maps, described as [(K, V)]) go through TypeDefTuple::new: it keeps every non-PhantomData member, in order
+        from . import c17
+        c17.phantom(chk, prog, cfg)
     chk.rule("R4.5", "every built-in type the property names has type info at all: witness programs instantiate TypeInfo for the inventory "
              "(tuples up to arity 20, arrays, NonZero*, collections, pointers and references to unsized pointees) and must type-check")
     from ..lib import witness
